@@ -5,6 +5,7 @@ TB = ("Trusted: Lean 4.33.0 kernel; axioms propext/Classical.choice/Quot.sound o
 TEXTS = {
     "C20": {
         "text": "Sync-range clause proved for all (begin,end,fetch) over Nat (C20_ranges_partition_holds: exact ascending cover, non-empty ranges, length <= fetch+1); "
+                "the synchronised stream itself (C20_sync_stream_each_height_once: begin..end once each, ascending, then the end marker) — tied to the real StateSyncer.SyncCFTBlocks / SyncBFTBlocks run over three fake peers serving a hash-linked chain, one of them failing its first requests; "
                 "model run against the real calcRangeHeight on exhaustive small and random large triples; model-free monitor re-checks the partition on the real output. "
                 "Raft apply loop (Model/Order.lean: entriesToApply, publishEntries/mint, reportState, maybeTriggerSnapshot, restart): for EVERY sequence of Ready batches (any entries: duplicates, replays, gaps, stale heights), "
                 "snapshots, reports, executor takes and crash/restarts, the executor is handed exactly ledger+1, ledger+2, ... — consecutive, ascending, none twice (C20_delivery_consecutive, invariant `Good`: the minted queue "
